@@ -476,7 +476,8 @@ class TabPolicy(AbstractActorCriticPolicy):
 
     def _choose(self, state, observation, key, action_mask):
         oi = self._oi(observation)
-        cand = self.ACT[oi, state.h, raw(key) % self.ACT.shape[2]]
+        j = 0 if key is None else raw(key) % self.ACT.shape[2]
+        cand = self.ACT[oi, state.h, j]
         if action_mask is not None and not self.box:
             idx = (cand + jnp.arange(self.NA)) % self.NA
             allowed = jnp.asarray(action_mask)[idx]
@@ -488,7 +489,7 @@ class TabPolicy(AbstractActorCriticPolicy):
         return oi, a, TabPState((state.h + 1 + oi) % self.NH)
 
     def __call__(self, state, observation, *, key=None, action_mask=None):
-        oi, a, nxt = self._choose(state, observation, jr.key(0) if key is None else key, action_mask)
+        oi, a, nxt = self._choose(state, observation, key, action_mask)
         return nxt, a
 
     def action_and_value(self, state, observation, *, key, action_mask=None):
